@@ -97,8 +97,37 @@ def _order_tree(rnd, ordering, rev, depth=0):
     return dict(items)
 
 
+_POOLS = {}
+
+
+def _pool_path(tier, seed):
+    return os.path.join(VERIF, ".scratch", "c20-pool-%s-%d.json" % (tier, seed))
+
+
 def _pool(tier, seed):
-    """list of job dicts (JSON-able); identical in every process for the same (tier, seed)"""
+    """the job pool of this run: built once by prepare() in the parent and read from a file everywhere else - building it renders shipped
+    rulebooks, and a worker or baseline process must not have compiled anything before its first job"""
+    key = (tier, seed)
+    if key not in _POOLS:
+        if not os.path.exists(_pool_path(tier, seed)):
+            _write_pool(tier, seed)
+        with open(_pool_path(tier, seed)) as f:
+            _POOLS[key] = json.load(f)
+    return _POOLS[key]
+
+
+def _write_pool(tier, seed):
+    jobs = _build_pool(tier, seed)
+    os.makedirs(os.path.dirname(_pool_path(tier, seed)), exist_ok=True)
+    tmp = _pool_path(tier, seed) + ".tmp%d" % os.getpid()
+    with open(tmp, "w") as f:
+        json.dump(jobs, f)
+    os.replace(tmp, _pool_path(tier, seed))
+    _POOLS[(tier, seed)] = json.loads(json.dumps(jobs))
+
+
+def _build_pool(tier, seed):
+    """list of job dicts (JSON-able), a pure function of (tier, seed) and the tree under test"""
     from vf.model import corpus
     jobs = []
     # configurations full of rows (plain and negated) that the SHIPPED ordering rulebooks of several vendors speak about: the same rule
@@ -107,6 +136,34 @@ def _pool(tier, seed):
     from annet.rulebook import get_rulebook
     from vf.model import sut
     _provider()
+    # VLAN-list jobs over the shipped cisco / nexus / huawei rulebooks (list lines split over several rows, named blocks): the list
+    # logics parse and combine rows, which is where per-row caches and shared accumulators would live
+    for j in range(24 if tier == "quick" else 80):
+        rnd = random.Random("vlan-%d-%d" % (seed, j))
+        model = rnd.choice(["Cisco Catalyst 2960", "Cisco Nexus 3132", "Huawei CE6870"])
+
+        def side():
+            ids = sorted(rnd.sample(range(2, 31), rnd.randint(0, 8)))
+            t = {}
+            if model.startswith("Huawei"):
+                for chunk in (ids[:len(ids) // 2], ids[len(ids) // 2:]):
+                    if chunk:
+                        t["vlan batch " + " ".join(map(str, chunk))] = {}
+            else:
+                blocks = set(rnd.sample(ids, min(len(ids), rnd.randint(0, 2))))
+                for v in ids:
+                    if v in blocks:
+                        t["vlan %d" % v] = {"name v%d" % v: {}}
+                rest = [v for v in ids if v not in blocks]
+                for chunk in (rest[:len(rest) // 2], rest[len(rest) // 2:]):
+                    if chunk:
+                        t["vlan " + ",".join(map(str, chunk))] = {}
+                trunk = sorted(rnd.sample(range(2, 31), rnd.randint(1, 6)))
+                t["interface GigabitEthernet0/1" if "Catalyst" in model else "interface Ethernet1/1"] = dict(
+                    [("switchport trunk allowed vlan " + ",".join(map(str, trunk[:3])), {})] +
+                    ([("switchport trunk allowed vlan add " + ",".join(map(str, trunk[3:])), {})] if trunk[3:] else []))
+            return t
+        jobs.append({"kind": "vlan", "model": model, "old": side(), "new": side()})
     for m in ORDER_HW:
         hw = HardwareView(m, None)
         rb = get_rulebook(hw)
@@ -236,6 +293,12 @@ def run_job(job, snapshots=False):
         rb = get_rulebook(hw)
         acl, comments = None, False
         vendor = hw.vendor
+    elif job["kind"] == "vlan":
+        hw = HardwareView(job["model"], None)
+        old, new = RL.to_odict(job["old"]), RL.to_odict(job["new"])
+        rb = get_rulebook(hw)
+        acl, comments = None, False
+        vendor = hw.vendor
     elif job["kind"] == "order":
         hw = HardwareView(job["model"], None)
         old, new = RL.to_odict({}), RL.to_odict(job["new"])
@@ -265,7 +328,8 @@ def run_job(job, snapshots=False):
         else:
             d, pt = _diff_and_patch(sut.Dev(hw), old, new, acl, None, comments, rb=rb)
             fmt = sut.registry().match(hw).make_formatter(indent="")
-            paths = [list(p) for p in fmt.cmd_paths(pt).keys()]
+            # (a command is handed to the deploy step together with its rule context, which selects %ifcontext deploy rules)
+            paths = [list(p) + ["ctx=" + json.dumps(c, sort_keys=True, default=str)] if c else list(p) for p, c in fmt.cmd_paths(pt).items()]
         oc = Orderer(rb["ordering"], hw.vendor).order_config(new)
         res = ["ok", _plain_diff(d), paths, [[k, json.dumps(v)] for k, v in oc.items()]]
     except _Timeout:
@@ -288,6 +352,67 @@ def run_job(job, snapshots=False):
     return res, problems, vendor
 
 
+def _cold_run(args):
+    """a short sequence of jobs in an interpreter that has served nothing yet (spawned, one sequence per process): what a rulebook or ACL
+    text compiles to must not depend on which vendor's texts the process compiled first"""
+    tier, seed, seq = args
+    import sys
+    sys.path.insert(0, VERIF)
+    jobs = _pool(tier, seed)
+    out = []
+    for idx in seq:
+        res, problems, vendor = run_job(jobs[idx], snapshots=True)
+        out.append([idx, json.loads(json.dumps(res)), problems])
+    return out
+
+
+def _judge_cold(tier, seed, seq, out):
+    fr = _fresh(tier, seed)
+    for pos, (idx, res, problems) in enumerate(out):
+        job = _pool(tier, seed)[idx]
+        det = {"position": pos, "job": {k: v for k, v in job.items() if k != "rules"}, "history": seq[:pos], "cold_start": True,
+               "case": {"tier": tier, "seq": list(seq), "cold": True}}
+        if problems:
+            raise Violation("input-modified", f"cold start, job {idx} at position {pos}: " + "; ".join(problems), det)
+        fresh = fr["fresh"][str(idx)]
+        if res[0] == "timeout" or fresh[0] == "timeout":
+            continue
+        if res != fresh:
+            det.update({"in_history": res, "fresh": fresh})
+            raise Violation("history-dependent", f"job {idx} run in a new process right after jobs {seq[:pos]} gives a different result than alone "
+                            f"in a new process ({_first_diff(res, fresh)})", det)
+
+
+def _cold_sequences(tier, seed, n):
+    fr = _fresh(tier, seed)
+    byv = {}
+    for i, v in fr["vendor"].items():
+        byv.setdefault(v, []).append(int(i))
+    vendors = sorted(byv)
+    seqs = []
+    for k in range(n):
+        rnd = random.Random("cold-%d-%d" % (seed, k))
+        first = rnd.choice(byv[vendors[k % len(vendors)]])       # every vendor gets to be the first one served
+        rest = [rnd.choice(byv[rnd.choice(vendors)]) for _ in range(rnd.randint(2, 4))]
+        seqs.append([first] + rest)
+    return seqs
+
+
+def extra_phase(tier, seed):
+    n = 48 if tier == "quick" else 480
+    seqs = _cold_sequences(tier, seed, n)
+    ctx = mp.get_context("spawn")
+    with ctx.Pool(min(16, os.cpu_count() or 1), maxtasksperchild=1) as pool:
+        outs = pool.map(_cold_run, [(tier, seed, s) for s in seqs], chunksize=1)
+    nt = []
+    for s, out in zip(seqs, outs):
+        _judge_cold(tier, seed, s, out)
+        nt.append(case_hash({"cold": s}))
+    return {"evaluations": len(seqs), "nontrivial": nt, "labels": {"cold-start-sequence": len(seqs)},
+            "samples": [{"case": {"tier": tier, "seq": seqs[0], "cold": True}, "labels": ["cold-start-sequence"]}],
+            "coverage": {"cold_start_sequences": len(seqs)}}
+
+
 def _fresh_one(args):
     tier, seed, idx = args
     import sys
@@ -302,6 +427,7 @@ def _cache_path(tier, seed):
 
 
 def prepare(tier, seed):
+    _write_pool(tier, seed)
     jobs = _pool(tier, seed)
     ctx = mp.get_context("spawn")
     with ctx.Pool(min(16, os.cpu_count() or 1), maxtasksperchild=1) as pool:
@@ -339,6 +465,12 @@ def check(case):
         prepare(tier, seed)   # replay of a single case: compute the baselines first
     fr = _fresh(tier, seed)
     jobs = _pool(tier, seed)
+    if case.get("cold"):
+        ctx = mp.get_context("spawn")
+        with ctx.Pool(1, maxtasksperchild=1) as pool:
+            out = pool.map(_cold_run, [(tier, seed, list(case["seq"]))])[0]
+        _judge_cold(tier, seed, list(case["seq"]), out)
+        return ["cold-start-sequence"]
     labels = []
     seen = {}
     vendors = set()
@@ -366,9 +498,12 @@ def check(case):
             labels.append("shared-acl")
         if job["kind"] == "order":
             labels.append("shipped-ordering-job")
+        if job["kind"] == "vlan":
+            labels.append("vlan-list-job")
         if job["kind"] == "syn" and res[0] == "ok":
             # absolute oracle for the mutating logic: every call sees a pristine rule, so its removal command carries exactly one mark
             for p in res[2]:
+                p = [x for x in p if not x.startswith("ctx=")]
                 if p[-1].startswith("XX") or p[-1].count(" touched") > 1:
                     raise Violation("logic-mutation-leaked", f"job {idx}: command {p!r} shows a rule attribute mutated by an earlier logic call", det)
                 if p[-1].startswith("X"):
